@@ -450,13 +450,16 @@ def run(replay, tolerant=False):
             args = [env[p] for p in c.params if p in fn.__code__.co_varnames[: fn.__code__.co_argcount]]
             names = fn.__code__.co_varnames[: fn.__code__.co_argcount]
             args = [env[p] for p in names]
+            kwargs = {}
         else:
             fn = resolve(c.target)
             code = fn.__code__
             names = code.co_varnames[: code.co_argcount]
             args = [env[p] for p in names if p in env]
+            kwnames = code.co_varnames[code.co_argcount: code.co_argcount + code.co_kwonlyargcount]
+            kwargs = {p: env[p] for p in kwnames if p in env}
         try:
-            result = fn(*args)
+            result = fn(*args, **kwargs)
             out["outcome"] = "return"
         except Exception as ex:
             out["outcome"] = f"raise:{type(ex).__name__}"
